@@ -130,6 +130,22 @@ def _embed2(Kref, n1, n2, r1, r2, size):
     return out
 
 
+def _eval_abs(pd, axis, pos):
+    """cancellation-free size of the trial functions / their first derivative (in physical units) at the interface coordinate:
+    max over components and functions of sum|coef||t|^k.  Next to an edge on which the functions vanish the actual values are tiny
+    while this stays O(1): entries of the connection matrix are then resolved only to eps times the products of these sizes."""
+    from ..ref import bardell as B
+    L = pd.b if axis == 'y' else pd.a
+    t = 2 * pos / L - 1.
+    nfun = pd.n if axis == 'y' else pd.m
+    a0 = a1 = 0.
+    for comp in 'uvw':
+        fl = pd.fy(comp) if axis == 'y' else pd.fx(comp)
+        a0 = max(a0, float(np.max(B.feval_abs(nfun, [t], fl, der=0))))
+        a1 = max(a1, float(np.max(B.feval_abs(nfun, [t], fl, der=1))) * 2. / L)
+    return a0, a1
+
+
 def check_kernel(case, ctx):
     p1, p2, pd1, pd2 = _panels(case)
     kind = case['kind']
@@ -150,7 +166,16 @@ def check_kernel(case, ctx):
     with package(name):
         K = _kernel_sum(case, p1, p2, pd1, pd2, kt, kr, r1, r2, size, dsb)
     Kref = _embed2(ref_conn(kind, pd1, pd2, kt, kr if kind != 'SB' else 0., pos1, pos2, dsb), n1, n2, r1, r2, size)
-    ctx.close(name, K, Kref, TOL, bucket=name)
+    # an interface on / a hair away from an edge on which the trial functions vanish: every entry is a product of cancellation-limited
+    # function values, resolved (by the package and by the reference alike) only to eps times the cancellation-free size of the products
+    floor = 0.
+    if pos1 is not None:
+        axis = 'y' if kind in ('SSycte', 'BFycte') else 'x'
+        (a0, a1), (b0, b1) = _eval_abs(pd1, axis, pos1), _eval_abs(pd2, axis, pos2)
+        Lline = pd1.a if axis == 'y' else pd1.b
+        # along the line the functions are bounded by ~1 (values) and ~2 m^2 / L (slopes, Markov)
+        floor = 50 * 2.2e-16 * Lline * (kt * (a0 + b0) ** 2 + kr * (a1 + b1) ** 2)
+    ctx.close(name, K, Kref, TOL, bucket=name, atol=floor)
     ctx.close(name + '.symmetry', K, K.T, 1e-13, bucket=name + '.symmetry')
     ev = np.linalg.eigvalsh((K + K.T) / 2.)
     ctx.ok(ev[0] >= -1e-10 * max(ev[-1], 0.), name + '.psd', 'min eigenvalue %.3e (max %.3e)' % (ev[0], ev[-1]))
